@@ -265,8 +265,11 @@ func c16Structure(c *Ctx) {
 					continue
 				}
 				ia, ok := st.Addr.(*ssa.IndexAddr)
-				if !ok || ia.X != dst {
+				if !ok {
 					continue
+				}
+				if sl, isSl := dst.(*ssa.Slice); ia.X != dst && !(isSl && sl.Low == nil && sl.High == nil && ia.X == sl.X) {
+					continue // (a whole-array slice and the array indexed in place are the same bytes)
 				}
 				if _, isK := intConst(ia.Index); isK {
 					continue // the constant prefix writes of the 3-byte arm
@@ -445,7 +448,7 @@ func c16Structure(c *Ctx) {
 			for _, b := range mh.Blocks {
 				for _, ins := range b.Instrs {
 					if st, ok := ins.(*ssa.Store); ok {
-						if ia, ok := st.Addr.(*ssa.IndexAddr); ok && ia.X == dst {
+						if ia, ok := st.Addr.(*ssa.IndexAddr); ok && (ia.X == dst || sameArrayAs(dst, ia.X)) {
 							if k, ok := intConst(ia.Index); ok && (k == 0 || k == 1) {
 								if ix, ok := st.Val.(*ssa.Index); ok {
 									if z, ok := intConst(ix.Index); ok && z == 0 {
@@ -850,4 +853,10 @@ func modhexOffsetForm(w *World, mh *ssa.Function, dst ssa.Value, dstLen int64, w
 		}
 	}
 	return of
+}
+
+// sameArrayAs: dst is the whole-array slice a[:] and x is the array a itself.
+func sameArrayAs(dst, x ssa.Value) bool {
+	sl, ok := dst.(*ssa.Slice)
+	return ok && sl.Low == nil && sl.High == nil && sl.X == x
 }
